@@ -34,6 +34,10 @@ def check(prog, rep):
     # an accepted heartbeat stays: nothing rolls the shared open transaction back
     check_no_rollback(prog, rep)
     wrapper_rules(prog, rep)
+    # the other side of the comparison: heartbeat_reduce is the left fold of the same merge function the loop calls
+    from .c08 import fold_rule
+
+    fold_rule(prog, rep)
     rep.rule("PASS", "Bucket.replace_last / Bucket.insert hand the caller's event to the backend unchanged")
     for m, callee, idx, p in (("replace_last", "replace_last", 1, "event"), ("insert", "insert_one", 1, "events")):
         fi = prog.func(f"Bucket.{m}")
@@ -47,6 +51,7 @@ PW = "aw_datastore/storages/peewee.py"
 ME = "aw_datastore/storages/memory.py"
 DS = "aw_datastore/datastore.py"
 VARIANTS = [
+    ("B reduce skips heartbeats lying within the last event without asking the merge rule", "aw_transform/heartbeats.py", "        merged = heartbeat_merge(reduced[-1], heartbeat, pulsetime)\n", "        if reduced[-1].timestamp <= heartbeat.timestamp and heartbeat.timestamp + heartbeat.duration <= reduced[-1].timestamp + reduced[-1].duration:\n            continue\n        merged = heartbeat_merge(reduced[-1], heartbeat, pulsetime)\n", "FOLD"),
     ("B sqlite newest keyed on endtime (original defect)", SQ, "ORDER BY starttime DESC, id DESC LIMIT ?", "ORDER BY endtime DESC LIMIT ?", ["LAST", "LAST-KEY", "ORDER"]),
     ("B sqlite replace_last keyed on endtime", SQ, "                        ORDER BY starttime DESC, id DESC LIMIT 1)\"\"\"", "                        ORDER BY endtime DESC, id DESC LIMIT 1)\"\"\"", ["LAST", "LAST-KEY"]),
     ("B sqlite replace_last maps max(starttime) back without scope", SQ, "                        SELECT id FROM events\n                        WHERE bucketrow = (SELECT rowid FROM buckets WHERE id = ?)\n                        ORDER BY starttime DESC, id DESC LIMIT 1)\"\"\"", "                        SELECT id FROM events WHERE starttime =\n                            (SELECT max(starttime) FROM events WHERE bucketrow =\n                                (SELECT rowid FROM buckets WHERE id = ?)))\"\"\"", ["LAST", "SCOPE"]),
